@@ -77,9 +77,18 @@ func lookSource(lay []lookDecl) string {
 }
 
 func checkLookCase(res *Result, lc *lookCase, dir string, idx int) {
+	// the file as gofmt leaves it, and without the final newline (generated code)
+	checkLookCaseNL(res, lc, dir, idx, true)
+	checkLookCaseNL(res, lc, dir, idx, false)
+}
+
+func checkLookCaseNL(res *Result, lc *lookCase, dir string, idx int, finalNL bool) {
 	_ = os.MkdirAll(dir, 0o755)
 	_ = os.WriteFile(filepath.Join(dir, "go.mod"), []byte("module example.com/look\n\ngo 1.20\n"), 0o644)
 	src := lookSource(lc.Lay)
+	if !finalNL {
+		src = strings.TrimSuffix(src, "\n")
+	}
 	file := filepath.ToSlash(filepath.Join(dir, "main.go"))
 	_ = os.WriteFile(filepath.Join(dir, "main.go"), []byte(src), 0o644)
 	k := lc.Encl
@@ -88,7 +97,7 @@ func checkLookCase(res *Result, lc *lookCase, dir string, idx int) {
 	}
 	sig := lookSigs[k-1]
 	dump := fmt.Sprintf("goroutine 1 [running]:\nmain.f%d(%s)\n\t%s:%d +0x1d\n", k, sig.words, file, lc.L+lookHeader)
-	cs := map[string]interface{}{"layout": lc.Lay, "line": lc.L, "enclosing": lc.Encl, "specified": lc.Want, "source": src}
+	cs := map[string]interface{}{"layout": lc.Lay, "line": lc.L, "enclosing": lc.Encl, "specified": lc.Want, "source": src, "final_newline": finalNL}
 	s, pan := scanWith(dump, &stack.Opts{LocalGOROOT: runtime.GOROOT(), GuessPaths: true, AnalyzeSources: true})
 	if pan != "" {
 		res.violation(Finding{Property: "C19", Aspect: "panic", What: fmt.Sprintf("lookup case %d: source analysis panicked: %s", idx, pan), Case: cs, Input: []byte(dump)})
